@@ -139,3 +139,52 @@ Example C10_nonvacuous :
    cleanup_cmd redis_backend LocksOnly active kst = [KRes 1; KRes 7; KOther 5]%positive /\
    cleanup_cmd dict_backend FailedOnly active kst = [KRes 1; KRes 7; KLock 2 false; KOther 5]%positive).
 Proof. vm_compute. repeat split; reflexivity. Qed.
+
+(* ---- the operator commands of the execution protocol ARE `jug cleanup` ------------------------------------------
+   Model/Exec.v (C01-C03, C11-C13) has two events that edit lock state wholesale: [ERemoveLocks] (recovery after a
+   crash) and [EReleaseFailed] (retry after --keep-failed).  Whenever a store of any backend REPRESENTS a protocol
+   state (same results, same locked names, same failed names), `cleanup --locks-only` / `--failed-only` on it yields
+   a store representing the state after the event; and any cleanup mode, given the tasks of the jugfile, leaves
+   exactly the results the protocol state has. *)
+From JugV Require Import Model.MapReduce Model.Slice Model.Deps Model.Exec Model.ExecCase Model.ExecExample
+  Proofs.ExecFacts Proofs.ExecCleanupFacts.
+
+Theorem C10_locks_only_is_the_protocols_lock_removal : forall (V : Type) (C : cfg V) (s s' : st V) active,
+  step0 C s ERemoveLocks = Some s' ->
+  (forall x, represents file_backend s x -> represents file_backend s' (cleanup_cmd file_backend LocksOnly active x)) /\
+  (forall x, represents dict_backend s x -> represents dict_backend s' (cleanup_cmd dict_backend LocksOnly active x)) /\
+  (forall x, represents redis_backend s x -> represents redis_backend s' (cleanup_cmd redis_backend LocksOnly active x)).
+Proof. exact (@locks_only_is_remove_locks). Qed.
+Print Assumptions C10_locks_only_is_the_protocols_lock_removal.
+
+Theorem C10_failed_only_is_the_protocols_release : forall (V : Type) (C : cfg V) (s s' : st V) active,
+  step0 C s EReleaseFailed = Some s' ->
+  (forall x, represents file_backend s x -> represents file_backend s' (cleanup_cmd file_backend FailedOnly active x)) /\
+  (forall x, represents dict_backend s x -> represents dict_backend s' (cleanup_cmd dict_backend FailedOnly active x)) /\
+  (forall x, represents redis_backend s x -> represents redis_backend s' (cleanup_cmd redis_backend FailedOnly active x)).
+Proof. exact (@failed_only_is_release_failed). Qed.
+Print Assumptions C10_failed_only_is_the_protocols_release.
+
+Theorem C10_cleanup_keeps_what_workers_stored : forall (V : Type) (s : st V) (m : mode) active,
+  (forall k, results s k <> None -> In k active) ->
+  (forall x, represents file_backend s x -> forall k, In k (b_results file_backend (cleanup_cmd file_backend m active x)) <-> results s k <> None) /\
+  (forall x, represents dict_backend s x -> forall k, In k (b_results dict_backend (cleanup_cmd dict_backend m active x)) <-> results s k <> None) /\
+  (forall x, represents redis_backend s x -> forall k, In k (b_results redis_backend (cleanup_cmd redis_backend m active x)) <-> results s k <> None).
+Proof. exact (@cleanup_keeps_what_the_protocol_stored). Qed.
+Print Assumptions C10_cleanup_keeps_what_workers_stored.
+
+(* non-vacuity: the crash example of Model/ExecExample.v (worker 0 killed inside f1, holding its lock): the dict
+   store [lock:1 ; some other key] represents the state; [ERemoveLocks] is enabled (the holder is dead);
+   `cleanup --locks-only` leaves [the other key], which represents the state after the event *)
+Example C10_protocol_nonvacuous : exists s s',
+  run (prog_cfg ex_prog) (init (Deps.st_of [])) ex_trace_crash = Some s /\
+  represents dict_backend s [KLock 1%positive false; KOther 7%positive] /\
+  step0 (prog_cfg ex_prog) s ERemoveLocks = Some s' /\
+  cleanup_cmd dict_backend LocksOnly [1; 2; 3]%positive [KLock 1%positive false; KOther 7%positive] = [KOther 7%positive] /\
+  represents dict_backend s' [KOther 7%positive].
+Proof.
+  eexists. eexists. split; [vm_compute; reflexivity|].
+  split; [|split; [vm_compute; reflexivity|split; [vm_compute; reflexivity|]]].
+  - unfold represents; simpl; split; [|split]; intros k; destruct k; simpl; intuition (try congruence; try discriminate).
+  - unfold represents; simpl; split; [|split]; intros k; intuition (try congruence; try discriminate).
+Qed.
